@@ -1652,6 +1652,17 @@ int vnaproperty_vset(vnaproperty_t **rootptr, const char *format, va_list ap)
 	errno = EINVAL;
 	goto out;
     }
+    if (scanner->scn_token == T_HASH) {	/* nothing may follow the # */
+	const char *cp = scanner->scn_position;
+
+	while (isspace((unsigned char)*cp)) {
+	    ++cp;
+	}
+	if (*cp != '\000') {
+	    errno = EINVAL;
+	    goto out;
+	}
+    }
 
     /*
      * Make the tree conform and descend to the requested node.
